@@ -292,8 +292,10 @@ Definition run_exact (x : run_exit) (procs mp before after : Z) : bool :=
   run_granted x && (0 <? procs) && (procs <=? mp)
   && (after - before =? procs * (1 - Z.of_nat (done_count x))).
 
-(* every proc handed out is returned when the task ends *)
-Definition run_ok (before after : Z) : bool := after =? before.
+(* every proc handed out is returned, exactly once, when the task ends, and the
+   machine's load stays within 0 .. maxTaskProcs *)
+Definition run_ok (mp before after : Z) : bool :=
+  (after =? before) && (0 <=? after) && (after <=? mp).
 
 (* ---------- verdicts ---------- *)
 
@@ -313,7 +315,7 @@ Definition case_ok (c : case) : bool :=
   | CSchedMany reqs runs => forallb (fun x => sched_ok reqs (fst x) (snd x)) runs
   | CLive cfg steps status =>
       (status =? 0) && (c_machprocs cfg =? spec_cap cfg) && live_ok cfg sp_init steps
-  | CRun x procs mp before after => run_ok before after
+  | CRun x procs mp before after => run_ok mp before after
   end.
 
 Definition mismatches (cs : list case) : list nat := bad_indices case_exact cs.
